@@ -44,6 +44,7 @@ type dispEnv struct {
 	pendingChk    string     // emitted by after(): the supply check of the last message
 	pendingCreate string     // emitted by after(): the escrow check of the last create message
 	createCtx     *createObs // set before delivering a create message
+	extra         []string   // further recipient accounts of the big directed distribution (observed in runs)
 }
 
 func coinsStr(c sdk.Coins) string {
@@ -457,7 +458,7 @@ func (e *dispEnv) runMsg(runner, name string, t int32, count int64, kind string)
 			preCompleted[recStr(r)] = true
 		}
 	}
-	accts := append([]string{}, e.rcpts...)
+	accts := append(append([]string{}, e.rcpts...), e.extra...)
 	before := e.balances(accts)
 	res := e.deliver(msg.ValidateBasic, func(ctx sdk.Context) error {
 		_, err := e.srv.RunDistribution(sdk.WrapSDKContext(ctx), &msg)
@@ -704,6 +705,70 @@ func (e *dispEnv) directedSpelling(rng *Rng) {
 	e.after()
 }
 
+// directed history (per-run limit across the runs of one block): one distribution with 26..36
+// recipients; in ONE block several run messages, each with a count in 1..20, that together handle
+// exactly 20 (or 19, or 21) records, then one more run with a small count for the same distribution
+// — which still has pending records — ; next block: the rest.  Every run must pay at most the
+// number of records it asked for.
+func (e *dispEnv) directedBigRun(rng *Rng) {
+	D, A := e.users[0].String(), e.users[1].String()
+	t := int32(1 + rng.Intn(3))
+	nrec := 26 + rng.Intn(11)
+	e.extra = nil
+	var outs []banktypes.Output
+	var toks []string
+	for i := 0; i < nrec; i++ {
+		a := sdk.AccAddress(crypto.AddressHash([]byte(fmt.Sprintf("verif-big-%d-%d", e.height, i)))).String()
+		e.extra = append(e.extra, a)
+		c := sdk.NewCoins(sdk.NewCoin("rowan", sdk.NewInt(int64(1+rng.Intn(50)))))
+		outs = append(outs, banktypes.Output{Address: a, Coins: c})
+		toks = append(toks, a, coinsStr(c))
+	}
+	name := fmt.Sprintf("%d_%s", e.height, D)
+	msg := disptypes.MsgCreateDistribution{Distributor: D, AuthorizedRunner: A, DistributionType: disptypes.DistributionType(t), Output: outs}
+	e.createCtx = &createObs{msg.Distributor, msg.Output}
+	res := e.deliver(msg.ValidateBasic, func(ctx sdk.Context) error {
+		_, err := e.srv.CreateDistribution(sdk.WrapSDKContext(ctx), &msg)
+		return err
+	})
+	if res == "ok" {
+		e.names = append(e.names, name)
+		for _, o := range outs {
+			k := fmt.Sprintf("%s|%d|%s", name, t, o.Address)
+			e.created[k] = e.created[k].Add(o.Coins...)
+		}
+	}
+	e.out.Emit(fmt.Sprintf("d.create %s %s %d %s", D, A, t, strings.Join(toks, " ")), res, "directed4.create."+res, true)
+	e.after()
+	if rng.Bool() {
+		e.opBegin() // the runs happen in the block after the creation (or in the same block)
+		e.after()
+	}
+	// counts that sum to 19, 20 or 21
+	target := []int{20, 20, 19, 21}[rng.Intn(4)]
+	var counts []int64
+	for left := target; left > 0; {
+		c := 1 + rng.Intn(minInt(left, 20))
+		if rng.Chance(1, 3) {
+			c = minInt(left, 20)
+		}
+		counts = append(counts, int64(c))
+		left -= c
+	}
+	for _, c := range counts {
+		e.runMsg(A, name, t, c, "directed4.fill")
+		e.after()
+	}
+	e.runMsg(A, name, t, int64(1+rng.Intn(5)), "directed4.next")
+	e.after()
+	e.runMsg(A, name, t, int64(1+rng.Intn(3)), "directed4.next2")
+	e.after()
+	e.opBegin()
+	e.after()
+	e.runMsg(A, name, t, 20, "directed4.rest")
+	e.after()
+}
+
 func init() {
 	families["disp"] = func(rng *Rng, n int, out *Out, replay string) {
 		ops := 0
@@ -723,6 +788,9 @@ func init() {
 			} else if ops < 120 || rng.Chance(1, 6) {
 				e.directedSpelling(rng)
 				ops += 6
+			} else if ops < 180 || rng.Chance(1, 8) {
+				e.directedBigRun(rng)
+				ops += 10
 			}
 			L := 20 + rng.Intn(40)
 			for i := 0; i < L && ops < n; i++ {
